@@ -181,10 +181,15 @@ def fork_map(fn, tasks: list, workers: int, timeout_s: float):
 
 
 def execute_program(check: Check, program: dict) -> dict:
+    from . import seams
+
     res = Result()
     res.log.event("program", p=program)
+    before = dict(seams.STATS)
     check.execute(program, res)
-    return res.pack()
+    packed = res.pack()
+    packed["seam_stats"] = {k: seams.STATS[k] - before.get(k, 0) for k in seams.STATS}
+    return packed
 
 
 def _run_batch(args):
@@ -523,6 +528,9 @@ def main(check: Check, argv=None) -> int:
                     agg["faults"][k] = agg["faults"].get(k, 0) + v
                 for k, v in p["probes"].items():
                     agg["probes"][k] = agg["probes"].get(k, 0) + v
+                for k, v in p.get("seam_stats", {}).items():
+                    agg.setdefault("seam_stats", {})
+                    agg["seam_stats"][k] = agg["seam_stats"].get(k, 0) + v
                 for k, v in p["sim"].items():
                     if k.startswith("max_"):
                         agg["sim"][k] = max(agg["sim"].get(k, 0), v)
@@ -597,7 +605,7 @@ def main(check: Check, argv=None) -> int:
             print(f"note: reach probes stuck at zero this run: {stuck}")
         from . import seams
 
-        agg["seam_stats"] = dict(seams.STATS)
+        agg.setdefault("seam_stats", {})
         agg["extra"] = getattr(check, "extra_evidence", lambda a: {})(agg)
         wall = time.monotonic() - t_start
         if not args.no_evidence and agg["runs"] > 0:
